@@ -53,6 +53,11 @@ CHECKS = {
          "All pairs of single operations {AppendError, Kill, Stop, IsDone, Errors}, curated two-operation threads and three-thread programs on plain, isolated, full and child scopes, plus child creation/closing after and racing with the parent's end; every schedule with <=3 (quick) / <=4 (thorough) preemptions for two threads and <=2/3 for three; oracle: no panic, error count and identity, done signal, Wait/Close report, no deadlock, no unordered conflicting access to the error slices.",
          "Bounds as reported in evidence; word-sized fields are outside the race oracle; the shim's model of Mutex/RWMutex/WaitGroup/channels/select is trusted.",
          "DESIGN.md 3/C12"),
+ "C13": ("model_checking",
+         "bounded-history enumeration against a list-of-maps overlay model; preemption-bounded exhaustive schedule exploration of concurrent locked sections judged by a linearizability checker (porcupine) with each locked section as one atomic step; race oracle",
+         "All histories of <=3/4 operations on scope chains of depth 1-3 (keys k1,k2; values 1,2,nil) are compared with the overlay model through plain and locked reads; 33 concurrent programs (locked increments, plain writes/reads, Keys, nested locked reads, the get-or-create services of the task manager, environment and wait-group units) are explored under every schedule with <=3/2 (quick) or <=5/3 (thorough) preemptions; the recorded call/return history must be linearizable and end in the final value, services must return one instance.",
+         "2-3 threads; bounds as reported; the content of Keys() is not judged.",
+         "DESIGN.md 3/C13"),
  "C17": ("exploration",
          "exhaustive enumeration of ALL byte strings up to length 7 (quick) / 9 (thorough) over the 9-symbol alphabet of significant bytes, and of all rendered argument lists (<=3 arguments, 12-entry pool, 3 quoting forms, 4 separators)",
          "Totality is checked on every string; strings without quote/backslash/heredoc against a plain-word reference (per-line fields byte-for-byte, eof flags, exact stop at the newline); strings whose backslashes precede a letter or a continuation newline against the argument-count reference; every rendered list must split back to the original list and leave the next command for the next call; InjectArgs mapping is checked on every list.",
